@@ -17,7 +17,7 @@ func c13bGen(rt *rapid.T) e4Case {
 	c := e4Case{Cfg: e4GenConfig(rt)}
 	c.Cfg.PingMs = rapid.IntRange(2, 6).Draw(rt, "pingMs")
 	silent := rapid.IntRange(0, 3).Draw(rt, "silent") != 0
-	o := e4GenOpts{MaxSteps: 5, QoSWeights: []int{1, 2, 2}, SubWeight: 2, PreConnect: false}
+	o := e4GenOpts{MaxSteps: 5, QoSWeights: []int{1, 2, 2}, SubWeight: 2, PreConnect: false, NoCuts: true}
 	c.Steps = e4GenSteps(rt, o)
 	if silent {
 		c.Cfg.PingTimeoutMs = rapid.IntRange(2, 8).Draw(rt, "pingTimeoutMs")
@@ -92,6 +92,11 @@ func c13bOracle(r *e4Result) (string, bool, []string) {
 	// negative class: all pings answered => no close, no redial, no keep-alive error
 	labels = append(labels, "c13:all-pings-answered")
 	pings := 0
+	for _, e := range r.Log {
+		if e.Kind == "CUT" {
+			return "", false, labels // the harness itself cut a link: not the all-answered class
+		}
+	}
 	for _, e := range r.Log {
 		if e.Kind == "W" && e.Pkt.Type == rtPingReq {
 			pings++
